@@ -1,0 +1,47 @@
+//go:build verif
+// +build verif
+
+// Contracts and executable spec functions for package store (checked by /verif/govc).
+// Compiled only with -tags verif; the normal build and the test suite never see this file.
+//
+// Part 1: spec functions — pure Go, written from the property statements, translated to SMT
+// by govc and executed natively in replays.  Part 2: //@ contract blocks, keyed by function
+// name and loop ordinal (never by line).
+
+package store
+
+// ---------- helpers recognised by the translator ----------
+
+func forall(lo, hi int, p func(i int) bool) bool {
+	for i := lo; i < hi; i++ {
+		if !p(i) {
+			return false
+		}
+	}
+	return true
+}
+
+func exists(lo, hi int, p func(i int) bool) bool {
+	for i := lo; i < hi; i++ {
+		if p(i) {
+			return true
+		}
+	}
+	return false
+}
+
+// ---------- C16: hashes ----------
+
+// historical beansdb FNV-1a variant: bytes are sign-extended before the xor
+func specFnv1a(d []byte, n int) uint32 {
+	if n <= 0 {
+		return 0x811c9dc5
+	}
+	return (specFnv1a(d, n-1) ^ uint32(int32(int8(d[n-1])))) * 0x01000193
+}
+
+//@ func fnv1a
+//@   props C16
+//@   ints bv
+//@   ensures h == specFnv1a(data, len(data))
+//@   loop 1 invariant h == specFnv1a(data, $index)
